@@ -29,6 +29,9 @@ def panic_kind_of_call(t):
             return kind if not c.startswith('core::panicking::panic_const::') else 'panic'
     # indexing through the Index/IndexMut traits (slices, arrays, Vec, str, HashMap): panics on a bad index
     if c in ('core::ops::index::Index::index', 'core::ops::index::IndexMut::index_mut'):
+        tys = t.get('arg_tys', [])
+        if len(tys) > 1 and tys[1].endswith('ops::range::RangeFull') and (tys[0].lstrip('&').lstrip('mut ').startswith('[') or 'Vec<' in tys[0]):
+            return None   # x[..] on a slice / array / Vec selects everything and cannot panic
         return 'index'
     if 'target' not in t and c and not c.startswith('core::intrinsics') :
         # diverging call
